@@ -1064,6 +1064,14 @@ func TestVerifC14(t *testing.T) {
 			if mode, ids, ns := vfC14ParseStartOp(op); ns != nil {
 				vfC14StartCase(t, s, &tag, mode, ids, ns, 0, false, 2, r, "replay")
 			}
+		} else if i := strings.Index(op, "c14n "); i >= 0 {
+			op = op[i:]
+			if j := strings.IndexAny(op, "\"\n"); j >= 0 {
+				op = op[:j]
+			}
+			if c := vfC14ParseSyncN(op); c != nil {
+				vfC14SyncNCase(t, s, 0, c, "replay")
+			}
 		} else if i := strings.Index(op, "c14k "); i >= 0 {
 			op = op[i:]
 			if j := strings.IndexAny(op, "\"\n"); j >= 0 {
@@ -1097,6 +1105,18 @@ func TestVerifC14(t *testing.T) {
 	for i := 0; i < n; i++ {
 		rid, seq0, off0, evs := vfC14GenCoord(r.Fork())
 		vfC14CoordCase(t, s, tag, rid, seq0, off0, evs, "gen")
+		tag++
+	}
+	for _, l := range vfutil.Corpus("C14") {
+		if c := vfC14ParseSyncN(l); c != nil {
+			vfC14SyncNCase(t, s, tag, c, "corpus")
+			tag++
+		}
+	}
+	rn := vfutil.NewRand(vfutil.Seed() + 1415)
+	n = vfutil.Scale(60, 600)
+	for i := 0; i < n; i++ {
+		vfC14SyncNCase(t, s, tag, vfC14GenSyncN(rn.Fork()), "gen")
 		tag++
 	}
 	for _, l := range vfutil.Corpus("C14") {
